@@ -459,7 +459,7 @@ func init() {
 		ID:           "C10",
 		EvalCounters: []string{"tamperings", "honest_proofs_verified"},
 		Level:        "exploration",
-		Rule: "each case builds a weighted trie of 2..10 keys (a fifth of the values are 80..160 bytes long; after a first commit a third of the values are replaced by different values of the same weight) (in memory / committed at level 0..4 / committed and reloaded from the hash). Honest half: every block 1..W proves to the reference root with the owner's value. Adversarial half: for every block (thorough) / first, last and three random blocks (quick) the honest proof is decoded with the exported Persist* types, " +
+		Rule: "a third of the tries delete and put back unchanged entries in one commit window, commit and run two garbage-collection passes before the proofs are taken; for half of the committed tries a CopyRoot snapshot view is taken, the trie is updated further in memory, and every proof of the view must verify against the view's own root and content. Each case builds a weighted trie of 2..10 keys (a fifth of the values are 80..160 bytes long; after a first commit a third of the values are replaced by different values of the same weight) (in memory / committed at level 0..4 / committed and reloaded from the hash). Honest half: every block 1..W proves to the reference root with the owner's value. Adversarial half: for every block (thorough) / first, last and three random blocks (quick) the honest proof is decoded with the exported Persist* types, " +
 			"tampered and re-encoded: T1 sum-preserving re-weighting of claimed child weights in each branch (all ordered sibling pairs, deltas 1, 2 and the whole weight; same tail and honest tails of other blocks), T2 sum-changing re-weighting, T3 swapped sibling entries/hashes, T4 nodes or whole proofs from other blocks, positions and another trie, " +
 			"T5 dropped/duplicated/reordered/truncated elements, T6 edited short keys, child weights, value bytes and weights, T7 type confusion (hash/nil/value node in place of an element), T8 bit flips and raw splices. A forged proof is a violation iff verification returns no error, the trusted root and a value different from the true owner's. " +
 			"distinct non-trivial = distinct (trie root, block, tampering class) combinations submitted",
